@@ -579,6 +579,16 @@ func (b *Builder) V2Renew(e types.V2FileContractElement) bool {
 	}
 	ren.FinalRenterOutput = types.SiacoinOutput{Address: renter.Addr, Value: fc.RenterOutput.Value.Sub(ren.RenterRollover)}
 	ren.FinalHostOutput = types.SiacoinOutput{Address: host.Addr, Value: fc.HostOutput.Value.Sub(ren.HostRollover)}
+	// consensus does not tie the final payouts to the addresses of the renewed
+	// contract: both parties sign whatever addresses the renewal names
+	if b.Rng.IntN(3) == 0 {
+		ren.FinalRenterOutput.Address = b.randActor().Addr
+		b.Kinds = append(b.Kinds, "v2-renew-final-renter-address-differs")
+	}
+	if b.Rng.IntN(3) == 0 {
+		ren.FinalHostOutput.Address = b.randActor().Addr
+		b.Kinds = append(b.Kinds, "v2-renew-final-host-address-differs")
+	}
 	h := b.L.State.RenewalSigHash(ren)
 	ren.RenterSignature = renter.SK.SignHash(h)
 	ren.HostSignature = host.SK.SignHash(h)
